@@ -1147,7 +1147,16 @@ func (e *Env) Exec(t Target, o RunOpts) ([]*Step, error) {
 			armer.Arm(op.Faults)
 		}
 		st.Start = time.Now()
-		t.Update(ctx, st.Req.LogID, st.Req.Old, st.Req.Cp, st.Req.Proof, st)
+		func() {
+			// a panic in the code under test is an observation (verdict "panic"), not a
+			// crash of the harness: every oracle then sees a verdict it does not expect
+			defer func() {
+				if p := recover(); p != nil {
+					st.Out, st.Err, st.Verdict = nil, fmt.Errorf("PANIC: %v", p), "panic"
+				}
+			}()
+			t.Update(ctx, st.Req.LogID, st.Req.Old, st.Req.Cp, st.Req.Proof, st)
+		}()
 		st.End = time.Now()
 		if armer != nil {
 			st.Fired, st.Trace = armer.Disarm()
